@@ -602,6 +602,13 @@ def gen_cases(seed, count, exhaustive=True):
     for src in [b"'abc", b"'abc\\", b"'\\x", b"'\\x4", b"'a\\", b"'\xff'", b"'\xc3'", b"'\xed\xa0\x80'", b"'a'''"]:
         cases.append(("raw", "-", src))
     cases += escape_cases_systematic()
+    # size cliffs: a literal that reaches past 64 KiB / 256 KiB / 1 MiB of query text (a size limit on the input must not
+    # shorten a literal silently), as one long string and as a number placed across the offset behind padding
+    for n in (70000, 300000, 1100000):
+        cases.append(("str-big", t_str(b"a" * (n - 3) + b"'z\xc3\xa9".decode("unicode_escape").encode("latin-1")), None))
+    for k in (16, 18, 20):
+        for d in (12, 7, 2):
+            cases.append(("int-far", "n1234567890", b" " * ((1 << k) - d) + b"1234567890"))
     if exhaustive:
         cases += int_cases_systematic()
         cases += float_cases_systematic()
@@ -631,7 +638,9 @@ def gen_cases(seed, count, exhaustive=True):
 # running
 
 def run_tool(cmd, lines):
-    p = subprocess.run(cmd, input=("\n".join(lines) + "\n").encode(), stdout=subprocess.PIPE, stderr=subprocess.PIPE)
+    # the extracted functions are not all tail recursive: megabyte literals need a deep stack
+    sh = "ulimit -s unlimited 2>/dev/null; exec " + " ".join("'%s'" % c for c in cmd)
+    p = subprocess.run(["/bin/bash", "-c", sh], input=("\n".join(lines) + "\n").encode(), stdout=subprocess.PIPE, stderr=subprocess.PIPE)
     if p.returncode != 0:
         sys.stderr.write("command %r failed: %s\n" % (cmd, p.stderr.decode(errors="replace")[:2000]))
         sys.exit(3)
